@@ -596,6 +596,97 @@ func natLayers(tier string) []Layer {
 			},
 		})
 	}
+	// N7: recursive division with extreme partial remainders at a block boundary:
+	// u = ((qhi·b^B + blk)·v + rem)·b^m + low, B = len(v)/2 (the recursion's block size),
+	// so that after the block `blk` the running remainder is rem (v−1: every estimate of
+	// that block is one too large and the correction path with its borrow chain runs).
+	{
+		vlens := []int{100, 128, 200}
+		if thorough {
+			vlens = []int{100, 101, 127, 128, 150, 200, 256, 400}
+		}
+		tops := []uint64{BW / 2, BW - 1, BW / 10, 1}
+		layers = append(layers, Layer{
+			Name:   "N7-div-block-remainders",
+			Units:  len(vlens) * len(tops) * 2,
+			Bounds: fmt.Sprintf("u = ((qhi·b^B + blk)·v + rem)·b^m + low with B = len(v)/2: len(v) in %v; v = top word {B/2,B−1,10^18,1} · uniform word {1,B/2,B−1} · low half {all nines, all zeros, uniform}; qhi in {8·10^18 1…1, all nines}; blk = one non-zero word {1,B/2,B−1,7654321987654321} in the lowest position, or a full block; rem in {v−1, v−2, 0}; m in {B, 2B}, low in {zeros, nines}; Karatsuba threshold {30, 4}", vlens),
+			Run: func(c *Ctx, u int) {
+				installAdvPool(4096)
+				ok, obs, oks := decimal.VerifThresholds()
+				defer decimal.VerifSetThresholds(ok, obs, oks)
+				kthr := []int{30, 4}[u%2]
+				decimal.VerifSetThresholds(kthr, obs, oks)
+				n := vlens[u/2/len(tops)]
+				top := tops[u/2%len(tops)]
+				B := n / 2
+				uni := func(n int, w uint64) []uint64 {
+					v := make([]uint64, n)
+					for i := range v {
+						v[i] = w
+					}
+					return v
+				}
+				shiftW := func(x []uint64, k int) []uint64 { return append(make([]uint64, k), x...) }
+				for _, mid := range []uint64{1, BW / 2, BW - 1} {
+					for lowKind := 0; lowKind < 3; lowKind++ {
+						v := uni(n, mid)
+						v[n-1] = top
+						for i := 0; i < B-1; i++ {
+							switch lowKind {
+							case 0:
+								v[i] = BW - 1
+							case 1:
+								v[i] = 0
+							}
+						}
+						vm1 := refSub(v, []uint64{1})
+						vm2 := refSub(v, []uint64{2})
+						for qk := 0; qk < 2; qk++ {
+							qhi := uni(B, 1)
+							qhi[B-1] = 8 * (BW / 10)
+							if qk == 1 {
+								qhi = uni(B, BW-1)
+							}
+							for bk := 0; bk < 5; bk++ {
+								if c.Done() {
+									return
+								}
+								blk := make([]uint64, B)
+								switch bk {
+								case 0, 1, 2:
+									blk[0] = []uint64{1, BW / 2, BW - 1}[bk]
+								case 3:
+									blk[0] = 7654321987654321
+								case 4:
+									blk = uni(B, BW/2)
+								}
+								q := append(append([]uint64{}, blk...), qhi...) // little-endian: blk below qhi
+								qv := refMul(refNorm(q), v)
+								for ri, rem := range [][]uint64{vm1, vm2, nil} {
+									head := qv
+									if rem != nil {
+										head = refAdd(qv, rem)
+									}
+									for _, m := range []int{B, 2 * B} {
+										for lk, lw := range []uint64{0, BW - 1} {
+											uu := shiftW(head, m)
+											for i := 0; i < m; i++ {
+												uu[i] = lw
+											}
+											tag := fmt.Sprintf("k=%d qhi=%d blk=%d rem=%d m=%d low=%d", kthr, qk, bk, ri, m, lk)
+											natDivDirty = (bk+ri+lk)%2 == 1
+											natDivCase(c, uu, v, tag)
+											natDivDirty = false
+										}
+									}
+								}
+							}
+						}
+					}
+				}
+			},
+		})
+	}
 	// N6: public API on large operands: Mul and Quo correctly rounded, exact/inexact decision
 	{
 		vlens := []int{31, 64, 100, 128}
